@@ -422,6 +422,36 @@ def rule_wake(ctx, rep):
         _wl.check_wakers(rep, "C13.wake", fl, ctx.mod(F.lib, "perfn"), lambda name, ap: name == "defer_thread_futex")
 
 
+def rule_stopflag(ctx, rep):
+    """The reclaimer's stop flag is owned by the thread that starts/stops it: set to 1 before waking and joining the reclaimer,
+    reset to 0 only after pthread_join() returned (both under defer_thread_mutex); the reclaimer only reads it.  A reset done
+    by the new reclaimer itself races with a stop request issued before it ran its first statement: the request is erased,
+    the reclaimer sleeps for good and unregister hangs in pthread_join holding defer_thread_mutex."""
+    for fl in ALL:
+        F = FL[fl]
+        m = ctx.mod(F.lib, "flat")
+        writers = {}
+        for f in m.defined():
+            for i in pat.writes(f, glob="defer_thread_stop"):      # plain stores and atomic RMWs (IR or inline asm)
+                writers.setdefault(f.name, []).append(i)
+        pat.require(writers, "%s: no writer of defer_thread_stop" % fl)
+        thr = [n for n in writers if n == "thr_defer" or "thr_defer" in writers[n][0].scope_chain]
+        rep.check(not thr, "C13.stop", fl + ".reclaimer-read-only", "the reclaimer thread never writes its stop flag", "the reclaimer thread itself writes defer_thread_stop: a stop request issued before "
+                  "the thread's first statement is erased", [writers[n][0].where() for n in thr][:2])
+        for n, sts in writers.items():
+            f = m.fn(n)
+            rep.touch(f)
+            joins = f.calls("pthread_join")
+            zero = [s_ for s_ in sts if s_.op == "store" and ir.const_of(f, s_.args[0]) == 0]
+            one = [s_ for s_ in sts if s_.op == "store" and ir.const_of(f, s_.args[0]) == 1]
+            if joins and zero:
+                rep.must_pass("C13.stop", "%s.%s.join≺reset" % (fl, n), f, [f.entry()], zero, lambda i: i in joins, include_start=True, what="the stop flag is cleared only after the reclaimer was joined")
+            if joins and one:
+                rep.must_pass("C13.stop", "%s.%s.set≺join" % (fl, n), f, [f.entry()], joins, lambda i: i in one, include_start=True, what="the stop flag is set before joining the reclaimer")
+        allz = [s_ for sts in writers.values() for s_ in sts if s_.op == "store" and ir.const_of(s_.fn, s_.args[0]) == 0]
+        rep.check(bool(allz), "C13.stop", fl + ".reset-exists", "the stop flag is reset for the next reclaimer incarnation", "defer_thread_stop is never reset: a reclaimer started later exits at once", [])
+
+
 RULES = [
     ("C13.codec", rule_codec),
     ("C13.cap", rule_cap),
@@ -431,5 +461,6 @@ RULES = [
     ("C13.reg", rule_reg),
     ("C13.unreg", rule_unreg),
     ("C13.wake", rule_wake),
+    ("C13.stop", rule_stopflag),
 ]
 FLOORS = {}
